@@ -962,6 +962,10 @@ class Gen:
             # a second-order function: parameter whose own parameter is a function type
             inner = ('fn', (('d', 'int'),), 'd', rng.choice(['int', 'string', 'bool']))
             protos.append(("f%d" % nf, [P(self.fresh('p'), 'd', ('fn', (('d', inner),), 'd', 'int'))], 'd', 'int'))
+        if rng.chance(0.35):
+            # a parameter that is a function RETURNING a function: the inner function type sits in a result position
+            inner = ('fn', ((rng.choice(['d', 'v']), 'int'),), 'd', 'int')
+            protos.append(("f%d" % (nf + 1), [P(self.fresh('p'), 'd', ('fn', (), 'd', inner))], 'd', 'int'))
         protos.append(("main", [], 'd', 'int'))
         for name, ps, rc, rty in protos:
             top[name] = V(resolved(('fn', tuple((p.cst, p.ty) for p in ps), rc, rty)), 'temp', 'func')
@@ -1126,13 +1130,16 @@ class Mutator:
         self.insert(site, bad)
         return Mutant('call_arity', self.p, bad, 'callMismatch', site.path, x)
 
-    def call_kind(self, want_inner_fn=False, flip_var=False):
+    def call_kind(self, want_inner_fn=False, flip_var=False, in_result=False):
         site = self.pick_site()
         if site is None:
             return None
         fs = self._callable(site, True)
         recs = sorted(self.g.records) if not want_inner_fn else []
-        if want_inner_fn:
+        isfn = lambda q: isinstance(q, tuple) and q[0] == 'fn'
+        if want_inner_fn and in_result:
+            fs = [(x, v) for x, v in fs if any(isfn(pt) and isfn(pt[3]) and pt[3][1] for _, pt in resolved(v.ty)[1])]
+        elif want_inner_fn:
             fs = [(x, v) for x, v in fs if any(isinstance(pt, tuple) and pt[0] == 'fn' and
                                               any(isinstance(q, tuple) and q[0] == 'fn' for _, q in pt[1]) for _, pt in resolved(v.ty)[1])]
         if not fs and not recs:
@@ -1150,7 +1157,17 @@ class Mutator:
         if not ptys:
             return None
         i = self.rng.below(len(ptys))
-        if want_inner_fn:
+        if want_inner_fn and in_result:
+            # the function type in the RESULT position of the parameter's function type: flip the mutability of one of its parameters
+            i = [j for j, (_, pt) in enumerate(ptys) if isfn(pt) and isfn(pt[3]) and pt[3][1]][0]
+            pt = ptys[i][1]
+            q = pt[3]
+            k = self.rng.below(len(q[1]))
+            flipped = 'v' if norm_v(q[1][k][0]) != 'v' else 'd'
+            q2 = ('fn', q[1][:k] + ((flipped, q[1][k][1]),) + q[1][k + 1:], q[2], q[3])
+            badty = ('fn', pt[1], pt[2], q2)
+            how = 'silent'
+        elif want_inner_fn:
             i = [j for j, (_, pt) in enumerate(ptys) if isinstance(pt, tuple) and pt[0] == 'fn' and any(isinstance(q, tuple) and q[0] == 'fn' for _, q in pt[1])][0]
             pt = ptys[i][1]
             j = [j for j, (_, q) in enumerate(pt[1]) if isinstance(q, tuple) and q[0] == 'fn'][0]
@@ -1191,6 +1208,12 @@ class Mutator:
         m = self.call_kind(want_inner_fn=True)
         if m is not None:
             m.rule = 'call_kind_inner_fn'
+        return m
+
+    def call_kind_result_var(self):
+        m = self.call_kind(want_inner_fn=True, in_result=True)
+        if m is not None:
+            m.rule = 'call_kind_result_var'
         return m
 
     def call_kind_inner_var(self):
